@@ -727,6 +727,38 @@ func finish(c *Ctx, last *childRun, extra []Violation, skipped int) int {
 		ev["assumptions"] = []string{}
 	}
 	os.MkdirAll(filepath.Join(OutDir(), "evidence"), 0o755)
+	if os.Getenv("VERIF_EVIDENCE_MERGE") != "" {
+		// a second engine contributes to the same property (C04: generated lexers): keep the first
+		// engine's evidence, add this run as a named part and add up the headline counts
+		if ob, err := os.ReadFile(filepath.Join(OutDir(), "evidence", c.Prop+".json")); err == nil {
+			var old map[string]any
+			if json.Unmarshal(ob, &old) == nil {
+				if oc, ok := old["coverage"].(map[string]any); ok {
+					oc["part:"+c.Spec.Engine] = cov
+					for _, k := range []string{"evaluations", "distinct_nontrivial"} {
+						a, _ := oc[k].(float64)
+						var bb float64
+						switch v := cov[k].(type) {
+						case int64:
+							bb = float64(v)
+						case int:
+							bb = float64(v)
+						}
+						oc[k] = int64(a + bb)
+					}
+					if ex, _ := oc["exhaustive"].(bool); ex {
+						oc["exhaustive"] = exhaustive
+					}
+					ow, _ := old["wall_s"].(float64)
+					old["wall_s"] = ow + wall
+					ov, _ := old["violations"].(float64)
+					old["violations"] = int(ov) + len(unknown)
+					old["engine"] = fmt.Sprint(old["engine"], "+", c.Spec.Engine)
+					ev = old
+				}
+			}
+		}
+	}
 	b, _ := json.MarshalIndent(ev, "", " ")
 	if err := os.WriteFile(filepath.Join(OutDir(), "evidence", c.Prop+".json"), b, 0o644); err != nil {
 		fmt.Fprintln(os.Stderr, err)
